@@ -26,7 +26,8 @@ Inductive value : Type :=
 | VBool (b : bool)
 | VEnum (s : str)
 | VVar (x : str)
-| VList (l : list value).
+| VList (l : list value)
+| VObj (fields : list (str * value)).       (* input object: literal, JSON object, coerced value *)
 
 (* Leaves of the backing data graph are already typed; [LBad] is a value no leaf type accepts. *)
 Inductive leaf : Type :=
